@@ -31,10 +31,18 @@ def main():
         prop = s.split("-")[0]
         checks = [prop] + (EXTRA.get(s, []) if a.extra else [])
         print("=====", s, checks, flush=True)
+        lrp = os.path.join(ROOT, "seeded", s, "last_run.json")
+        if os.path.exists(lrp):
+            os.remove(lrp)  # never read a verdict of an earlier run
         p = subprocess.run([sys.executable, os.path.join(ROOT, "py", "seedtest.py"), os.path.join(ROOT, "seeded", s), "--checks", ",".join(checks)],
                            cwd=ROOT, stdout=subprocess.PIPE, stderr=subprocess.STDOUT, text=True)
         print(p.stdout[-2500:], flush=True)
-        lr = json.load(open(os.path.join(ROOT, "seeded", s, "last_run.json")))
+        if not os.path.exists(lrp):
+            print("!!!!! no verdict for", s, "(patch does not apply or /repo not clean)", flush=True)
+            results[s] = {c: {"exit": 2, "lines": ["seedtest produced no result"]} for c in checks}
+            json.dump(results, open(res_path, "w"), indent=1)
+            continue
+        lr = json.load(open(lrp))
         results.setdefault(s, {}).update(lr)
         json.dump(results, open(res_path, "w"), indent=1)
     print("\nSUMMARY")
